@@ -176,6 +176,7 @@ def run(ctx):
     else:
         ctx.ok("R10.mech", "xmlchemy", sample={"semantics": M.semantics, "file": xm.relpath})
     ctx.count("registrations", len(M.registry))
+    _shared_descriptors(ctx, prog, M)
 
     obs, unconstrained, not_in_schema = obligations(prog, S, M)
     ndecl = sum(len([d for d in M.own_decls(c)[0] if d.kind != "OneAndOnlyOne"]) for c in M.oxml_classes())
@@ -295,3 +296,58 @@ def run(ctx):
 
     c10_sites.run(ctx, prog, S, M, explicit)
     c10_sites.run_excl(ctx, prog, S, M, c10_sites.LAST_T)
+
+
+def _shared_descriptors(ctx, prog, M):
+    import ast
+
+    from sa.pysrc import dotted
+
+    """A declaration object keeps per-class state: `Choice.populate_class_members` stores the successors of the group it is placed in
+    on the Choice object itself, and the generated `_insert_<x>` reads them when it is called.  A Choice object (or a tuple of them)
+    defined once at module level and handed to the choice groups of several classes therefore ends up with the successors of the
+    class whose body ran last; the other classes insert that member in front of the wrong siblings."""
+    ctx.rule("R10.shared", "no Choice object is shared between choice groups that have different successors")
+    xm = prog.modules.get("pptx.oxml.xmlchemy")
+    ch = xm.classes.get("Choice") if xm else None
+    pm = ch.methods.get("populate_class_members") if ch else None
+    keeps = pm is not None and any(isinstance(n, ast.Assign) and dotted(n.targets[0]) == "self._successors" for n in ast.walk(pm.node))
+    users = {}   # (module name, name) -> [(class, prop, successors, node)]
+    ngroups = 0
+    for c in M.oxml_classes():
+        decl = {d.prop: d for d in M.own_decls(c)[0] if d.kind == "ZeroOrOneChoice"}
+        for name, expr, node in c.body_assigns:
+            if name not in decl or not isinstance(expr, ast.Call):
+                continue
+            ngroups += 1
+            a0 = expr.args[0] if expr.args else next((k.value for k in expr.keywords if k.arg == "choices"), None)
+            refs = []
+            if isinstance(a0, (ast.Name, ast.Attribute)) and dotted(a0):
+                refs.append(dotted(a0))
+            elif isinstance(a0, (ast.Tuple, ast.List)):
+                refs += [dotted(e) for e in a0.elts if isinstance(e, (ast.Name, ast.Attribute)) and dotted(e)]
+                refs += [dotted(e.value) for e in a0.elts if isinstance(e, ast.Starred) and dotted(e.value)]
+            elif isinstance(a0, ast.BinOp):
+                refs += [dotted(e) for e in ast.walk(a0) if isinstance(e, (ast.Name, ast.Attribute)) and dotted(e)]
+            for r in refs:
+                tgt = prog.resolve(c.module, r)
+                if isinstance(tgt, tuple) and tgt and tgt[0] == "expr":
+                    users.setdefault((tgt[1].name, r.split(".")[-1]), []).append((c, name, tuple(decl[name].successors or ()), node))
+    ctx.count("choice_groups", ngroups)
+    for (mod, nm), us in sorted(users.items()):
+        key = "%s.%s" % (mod, nm)
+        if len(us) < 2:
+            ctx.ok("R10.shared", key, nontrivial=False)
+            continue
+        succs = {u[2] for u in us}
+        if len(succs) > 1 and keeps:
+            last = us[-1]
+            ctx.violation("R10.shared", key, "the Choice objects of `%s` are handed to the choice groups of %s, whose successors differ; a Choice keeps "
+                          "the successors of the last group it was placed in, so the inserters of the other classes put the member in front "
+                          "of the wrong siblings (schema order is lost)" % (nm, ", ".join("%s.%s" % (u[0].name, u[1]) for u in us)),
+                          file=last[0].file, line=last[3].lineno)
+        elif len(succs) > 1:
+            ctx.error(key, "Choice objects shared between groups with different successors, and where Choice keeps its successors is not recognised")
+        else:
+            ctx.ok("R10.shared", key, sample={"shared_by": ["%s.%s" % (u[0].name, u[1]) for u in us], "successors": "identical"})
+    ctx.ok("R10.shared", "choice groups", sample={"groups": ngroups, "module_level_choice_tables": len(users)})
